@@ -565,6 +565,47 @@ func c31Gen(rng *rand.Rand, tier string) []Case {
 			add("rtriple", true, fmt.Sprintf("assoc %s %s %s", c31Random(rng, d), c31Random(rng, d), c31Random(rng, d)))
 		}
 	}
+	// systematic small reads: one JSON-settable field in two/three sources, as files and as
+	// directory entries given in non-lexical order (minimal replays for ReadConfigPaths)
+	for _, f := range c31Fields {
+		var v1, v2 string
+		switch f.kind {
+		case "str":
+			if strings.HasSuffix(f.name, "Raw") {
+				continue
+			}
+			v1, v2 = "s"+hexs("x"), "s"+hexs("node-1")
+		case "int":
+			v1, v2 = "i1", "i5"
+		case "bool":
+			v1, v2 = "b1", "b1"
+		case "tags":
+			v1, v2 = "t61:31,62:78", "t61:32"
+		case "list":
+			v1, v2 = "l78", "l79,78"
+		case "dur":
+			raw := f.name + "Raw"
+			if c31FieldByName(raw) == nil {
+				continue
+			}
+			c1 := raw + "=s" + hexs("5s") + ";" + f.name + "=i5000000000"
+			c2 := raw + "=s" + hexs("1h") + ";" + f.name + "=i3600000000000"
+			add("read2", true, fmt.Sprintf("read f:%s f:%s", c1, c2))
+			add("read2", true, fmt.Sprintf("read d:%s~j~%s|%s~j~%s", hexs("b.json"), c1, hexs("a.json"), c2))
+			continue
+		}
+		c1, c2 := f.name+"="+v1, f.name+"="+v2
+		add("read2", true, fmt.Sprintf("read f:%s f:%s", c1, c2))
+		add("read2", true, fmt.Sprintf("read f:%s f:-", c1))
+		add("read2", true, fmt.Sprintf("read d:%s~j~%s|%s~j~%s", hexs("b.json"), c1, hexs("a.json"), c2))
+		add("read2", true, fmt.Sprintf("read d:%s~j~%s|%s~j~%s|%s~j~%s f:%s", hexs("10.json"), c1, hexs("2.json"), c2, hexs("z.txt"), f.name+"="+v1, c1))
+	}
+	add("read2", false, "read")
+	add("read2", false, "read d:")
+	add("read2", false, "read m")
+	add("read2", false, "read f!")
+	add("read2", false, fmt.Sprintf("read d:%s~b~-", hexs("a.json")))
+	add("read2", false, fmt.Sprintf("read d:%s~b~-|%s~s~-", hexs("a.txt"), hexs("sub.json")))
 	for i := 0; i < nRead; i++ {
 		var paths []string
 		n := 1 + rng.Intn(4)
